@@ -8,6 +8,8 @@ CONSTANTS B = 4
   HoleHi = 57343
   Repl = 65533
   CHUNK = 2
+  STACK = 7
+  CHUNK_STACK = TRUE
   TU_FROM_START = TRUE
   NOTDEF_OWN = FALSE
   Mode = "map"
